@@ -258,12 +258,23 @@ def flow_field(ptr, fn, m):
 def check_r3_slots(chk, cfg, mods):
     """Users of claim/send and receive/release inside the library: slot written before send, read before release."""
     n = 0
+    # compositions inside the queue's own unit (a `pop` built from receive + copy + release) are users too: taken from the unit as
+    # written, where the calls are still calls
+    extra = []
     for m in mods:
-        for fn in m.defined_functions():
+        comp = mq.composites(m)
+        if comp:
+            try:
+                raw = build.load_unit(m.unit, m.config, inline_except=None)
+                extra += [(raw, raw.fn(nm)) for nm in sorted(comp)]
+            except AnalysisError:
+                pass
+    for m, fn in [(m, fn) for m in mods for fn in m.defined_functions()] + extra:
+        if True:
             callees = set(c.callee for c in fn.calls() if c.callee)
             if not ({"messageq_claim", "messageq_receive"} & callees):
                 continue
-            if fn.name.startswith("messageq_"):
+            if fn.name.startswith("messageq_") and (m, fn) not in extra:
                 continue
             ps = [p for p in paths.enumerate_paths(fn, m, loop_bound=1) if not paths.is_assert_fail_path(p)]
             for p in ps:
@@ -289,8 +300,9 @@ def check_r3_slots(chk, cfg, mods):
                         slot = e.res
                         rels = [j for j, x in enumerate(p.events) if j > k and x.kind == "call"
                                 and x.callee == "messageq_release" and len(x.args) > 1 and x.args[1] == slot]
-                        loads = [j for j, x in enumerate(p.events) if x.kind in ("load", "memcpy")
-                                 and x.ptr is not None and ptr_parts(x.ptr)[0] == slot]
+                        loads = [j for j, x in enumerate(p.events) if (x.kind in ("load", "memcpy")
+                                 and x.ptr is not None and ptr_parts(x.ptr)[0] == slot) or
+                                 (x.kind == "memcpy" and isinstance(x.val, tuple) and x.val and x.val[0] in ("p", "call", "sym", "ld") and ptr_parts(x.val)[0] == slot)]
                         if not rels:
                             continue
                         n += 1
